@@ -14,7 +14,8 @@ from session import tla_val   # noqa: E402
 
 ASSUME = ['the value -> yabgp dict rendering of harness/wire_map.py (documented input/output forms of Update.construct / Update.parse)',
           'TLC/SANY, CommunityModules Json/IOUtils', 'bounded value pools of spec/WireUpdate.tla (boundary values per field); not a proof about the Python code']
-FAMILIES = {'C06': ['upd'], 'C08': ['upd'], 'C09': ['upd', 'updvar', 'cor']}
+FAMILIES = {'C06': ['upd'], 'C08': ['upd', 'openrt', 'notif', 'rr', 'ka'], 'C09': ['upd', 'updvar', 'cor'],
+            'C14': ['open', 'openrt', 'notif', 'rr', 'ka']}
 CACHE = os.path.join(os.path.dirname(HERE), '.cache')
 
 
@@ -90,9 +91,9 @@ def run(prop, tier, seed):
         ok = False
         for line in open(nd):
             d = json.loads(line)
-            if d['kind'] == 'upd' and d['impl'] and d['rt_ok'] and d['dec_ok']:
+            if d['kind'] in ('upd', 'notif') and d['impl'] and d['rt_ok'] and d['dec_ok']:
                 bad = dict(d)
-                if prop == 'C06':
+                if prop in ('C06', 'C14'):
                     bad['rt_ok'] = False
                 elif prop == 'C08':
                     bad['impl'] = list(d['impl'])
